@@ -553,7 +553,8 @@ class Exec:
                 return out
             if r is not None: return r
             if st.status != 'run':
-                self.done.append(st); return []
+                if st.status not in ('infeasible', 'split'): self.done.append(st)
+                return []
 
     def goto(self, st, fr, b):
         fr.prev = fr.block; fr.block = b; fr.ip = 0
